@@ -27,6 +27,7 @@ BOUNDARY = [
     10**19, 9223372036854775806,
     '', 'a', 'b', 'ab', 'B', 'é', '￿', '\U00010000', '1', '-1', '1.5', '-0', '0', '1e2', '01', ' 1',
     '18446744073709551616', '9007199254740993', '9223372036854775808', '-9223372036854775809', 'abc', '1.0',
+    'NaN', 'nan', '-NaN', 'inf', '-inf', 'Infinity', '+1', '.5', ' 2 ', '1e999', '1.', '0x10',
     True, False, None, [], [1], [1, 2], {}, {'a': 1}, {'a': 1, 'b': 2},
 ]
 
@@ -99,7 +100,10 @@ def parse_numeric_string(s):
             return Fraction(0)
         if -(2**63) <= iv <= 2**64 - 1:
             return Fraction(iv)
-    return Fraction(float(s))
+    f = float(s)
+    if f in (float('inf'), float('-inf')):
+        return None            # a numeral outside the f64 range is not a JSON number (serde_json rejects it)
+    return Fraction(f)
 
 def spec_compare(a, b):
     """None = incomparable; else -1/0/1"""
